@@ -167,6 +167,14 @@ class Run(object):
                 undecided.append(o)
             elif o.status == ENGINE_ERR:
                 engine_err.append(o)
+        # which listed obligations failed in this run (tools/prune_kf.py drops ids that no run in either tier reaches any more)
+        try:
+            hits = sorted(o.oid for o in self.obs if o.status == 'known-finding')
+            hd = os.path.join(VERIF, '.tmp', 'kfhits'); os.makedirs(hd, exist_ok=True)
+            if OUT == VERIF and REPO == '/repo':
+                json.dump(hits, open(os.path.join(hd, '%s_%s_%s.json' % (self.pid, self.tier, self.seed)), 'w'))
+        except Exception:
+            pass
         for rid, (r, n) in sorted(kf_hit.items()):
             print('KNOWN-FINDING: property=%s %s (%d obligations): %s' % (self.pid, rid, n, r.get('what', '')))
         # listed findings that no longer fail are reported (informational)
